@@ -37,14 +37,20 @@ pub fn post_linear(start: f64, end: f64, n: usize, v: &[f64]) -> bool {
         && (v[n - 1] - hi <= 1.0e-9 && hi - v[n - 1] <= 1.0e-9)
 }
 
-fn any_slice<S: Src>(s: &mut S) -> ([f64; MAX_N], usize) {
+/// symbolic length, split into concrete cases by the callers (`match pick_n(..) { 0 => f(s, 0), .. }`) so that every
+/// slice / Vec length is a constant for CBMC
+fn pick_n<S: Src>(s: &mut S, max: usize) -> usize {
     let n = s.usize();
-    s.assume(n <= MAX_N);
-    ([s.f64(), s.f64(), s.f64()], n)
+    s.assume(n <= max);
+    n
 }
+fn any_slice<S: Src>(s: &mut S) -> [f64; MAX_N] { [s.f64(), s.f64(), s.f64()] }
 
 pub fn h_vec_helpers<S: Src>(s: &mut S) {
-    let (a, n) = any_slice(s);
+    match pick_n(s, MAX_N) { 0 => h_vec_helpers_n(s, 0), 1 => h_vec_helpers_n(s, 1), 2 => h_vec_helpers_n(s, 2), _ => h_vec_helpers_n(s, 3) }
+}
+fn h_vec_helpers_n<S: Src>(s: &mut S, n: usize) {
+    let a = any_slice(s);
     let v = &a[..n];
     s.check(post_has_nan(v, has_nan(v)), "has_nan <=> some element is NaN");
     s.check(post_all_finite(v, are_all_finite(v)), "are_all_finite <=> no element is NaN or +-inf");
@@ -53,7 +59,10 @@ pub fn h_vec_helpers<S: Src>(s: &mut S) {
 }
 
 pub fn h_try_from<S: Src>(s: &mut S) {
-    let (a, n) = any_slice(s);
+    match pick_n(s, MAX_N) { 0 => h_try_from_n(s, 0), 1 => h_try_from_n(s, 1), 2 => h_try_from_n(s, 2), _ => h_try_from_n(s, 3) }
+}
+fn h_try_from_n<S: Src>(s: &mut S, n: usize) {
+    let a = any_slice(s);
     let mut vals = Vec::with_capacity(MAX_N);
     if n > 0 { vals.push(a[0]); }
     if n > 1 { vals.push(a[1]); }
@@ -74,8 +83,9 @@ pub fn h_try_from<S: Src>(s: &mut S) {
 
 /// push: from a valid domain of <= 2 values, push(x) succeeds exactly for finite x >= last and keeps the invariant
 pub fn h_push<S: Src>(s: &mut S) {
-    let n = s.usize();
-    s.assume(n <= 2);
+    match pick_n(s, 2) { 0 => h_push_n(s, 0), 1 => h_push_n(s, 1), _ => h_push_n(s, 2) }
+}
+fn h_push_n<S: Src>(s: &mut S, n: usize) {
     let a = [s.f64(), s.f64()];
     let x = s.f64();
     s.assume(domain_inv(&a[..n]));
@@ -128,13 +138,13 @@ mod proofs {
 
     // in-place contracts (src/common/vec_f64.rs), slices of length <= 3 (BOUNDED)
     #[kani::proof_for_contract(has_nan)] #[kani::unwind(5)]
-    fn contract_has_nan() { let (a, n) = any_slice(&mut Sym); kani::cover!(n == 3 && a[2].is_nan()); has_nan(&a[..n]); }
+    fn contract_has_nan() { let n = pick_n(&mut Sym, MAX_N); let a = any_slice(&mut Sym); kani::cover!(n == 3 && a[2].is_nan()); match n { 0 => has_nan(&a[..0]), 1 => has_nan(&a[..1]), 2 => has_nan(&a[..2]), _ => has_nan(&a[..3]) }; }
     #[kani::proof_for_contract(are_all_finite)] #[kani::unwind(5)]
-    fn contract_are_all_finite() { let (a, n) = any_slice(&mut Sym); kani::cover!(n == 3 && a[1].is_infinite()); are_all_finite(&a[..n]); }
+    fn contract_are_all_finite() { let n = pick_n(&mut Sym, MAX_N); let a = any_slice(&mut Sym); kani::cover!(n == 3 && a[1].is_infinite()); match n { 0 => are_all_finite(&a[..0]), 1 => are_all_finite(&a[..1]), 2 => are_all_finite(&a[..2]), _ => are_all_finite(&a[..3]) }; }
     #[kani::proof_for_contract(are_in_ascending_order)] #[kani::unwind(5)]
-    fn contract_are_in_ascending_order() { let (a, n) = any_slice(&mut Sym); kani::cover!(n == 3 && a[1] == a[2]); are_in_ascending_order(&a[..n]); }
+    fn contract_are_in_ascending_order() { let n = pick_n(&mut Sym, MAX_N); let a = any_slice(&mut Sym); kani::cover!(n == 3 && a[1] == a[2]); match n { 0 => are_in_ascending_order(&a[..0]), 1 => are_in_ascending_order(&a[..1]), 2 => are_in_ascending_order(&a[..2]), _ => are_in_ascending_order(&a[..3]) }; }
     #[kani::proof_for_contract(are_in_descending_order)] #[kani::unwind(5)]
-    fn contract_are_in_descending_order() { let (a, n) = any_slice(&mut Sym); kani::cover!(n == 3 && a[1] == a[2]); are_in_descending_order(&a[..n]); }
+    fn contract_are_in_descending_order() { let n = pick_n(&mut Sym, MAX_N); let a = any_slice(&mut Sym); kani::cover!(n == 3 && a[1] == a[2]); match n { 0 => are_in_descending_order(&a[..0]), 1 => are_in_descending_order(&a[..1]), 2 => are_in_descending_order(&a[..2]), _ => are_in_descending_order(&a[..3]) }; }
     // in-place contracts (src/common/discrete_domain.rs), n in 2..=4 (BOUNDED by n)
     #[kani::proof_for_contract(DiscreteDomain::linear)] #[kani::unwind(6)]
     fn contract_domain_linear() { let a: f64 = kani::any(); let b: f64 = kani::any(); let k: u8 = kani::any(); kani::cover!(k == 2 && a > b); match k { 0 => DiscreteDomain::linear(a, b, 2), 1 => DiscreteDomain::linear(a, b, 3), _ => DiscreteDomain::linear(a, b, 4) }; }
